@@ -55,7 +55,8 @@ def session():
     return S
 
 
-def pit(R, rule, site, key, got_fn, want_fn, what, trials=TRIALS, positive=()):
+def pit(R, rule, site, key, got_fn, want_fn, what, trials=None, positive=()):
+    trials = trials or (40 if R.tier == "thorough" else TRIALS)
     """identity test: got_fn(env) vs want_fn(env) (complex or float) at `trials` random points"""
     try:
         worst = 0.0
@@ -439,6 +440,26 @@ def clause_ffsampling(R, S0):
     R.analysed.setdefault("unsupported", []).extend(S.unsupported[:5])
 
 
+def clause_premises(R):
+    """premises the other clauses rest on, decided under C09 / C04 and shared here as rule instances: the base
+    sampler's table and exponential constants (a typo there changes every leaf sample) and the Gram-Schmidt norm
+    that key generation bounds (the leaf range)"""
+    from . import c09, c04
+    from fv.oracle import RCDT, FACCT_C
+    S = Session()
+    prog = S.prog
+    base = S.find("samplerz::base_sampler")
+    tabs = [c09.array_const(prog, c, 16) for t, c in c09.consts_in(prog, base, lambda t: t.tag == "Array" and "u128" in t.s)]
+    tabs = [t for t in tabs if t and len(t) == 18]
+    R.check(len(tabs) >= 1 and all(t == RCDT for t in tabs), "C10-premise", "base_sampler RCDT", "the 18 table entries equal the specification's Table 3.1 (shared with C09)",
+            f"table differs from the specification at indices {[i for i in range(18) if tabs and tabs[0][i] != RCDT[i]]}" if tabs else "no [u128; 18] constant found", key="prem|rcdt")
+    aexp = S.find("samplerz::approx_exp")
+    ctab = [c09.array_const(prog, c, 8) for t, c in c09.consts_in(prog, aexp, lambda t: (t.tag in ("Array", "Ref")) and "u64; 13" in t.s)]
+    ctab = [t for t in ctab if t and len(t) == 13]
+    R.check(len(ctab) >= 1 and all(t == FACCT_C for t in ctab), "C10-premise", "approx_exp constants", "the 13 polynomial coefficients equal the specification's (shared with C09)", key="prem|facct")
+    c04.clause_gs_norm(R, rule="C10-premise")
+
+
 def run(R):
     R.trust("rustc CTFE + MIR (nightly)", "E0 fact extractor", "E2 abstract interpreter and model table", "identity testing at random points (error probability negligible for the degree-<=6 rational expressions involved)",
             "Falcon specification v1.2 formulas (Algorithms 8-11) and constants re-derived with mpmath")
@@ -453,5 +474,6 @@ def run(R):
     c03.constructor_census(Session(), R, rule="C10-census")
     clause_ffsampling(R, S)
     signalg.clause_sign(R, "C10-sign")
+    clause_premises(R)
     R.analysed.setdefault("unsupported", []).extend(S.unsupported[:5])
     R.floor("rule instances", len(R.obl), 60)
